@@ -66,12 +66,13 @@ PROPS = {
     "C09": {
         "modules": ["TurnModel.Props.C09"],
         "harnesses": ["H1", "H5", "H2"],
-        "view": ["consume", "frames", "framesb", "cddec", "ischan", "cin", "cnet", "m:junk", "m:unk"],
+        "view": ["consume", "frames", "framesb", "cddec", "ischan", "cin", "cnet", "m:junk", "m:unk", "trace"],
         "alarms": ["consume-no-progress", "framer-spins", "harness-died", "inbound-blocks", "h5-setup", "attr-get-panics"],
         "rule": "hostile streams through the real framer and codecs (all 2^16 declared lengths, uint16-overflow lengths 0xFFEC-0xFFFF, "
                 "random garbage of every length 0-40; every stream also read with caller buffers of 1-1600 bytes, smaller than some frames); "
                 "client side (H5): undecodable STUN, requests, foreign responses, garbage from the server and from elsewhere, ChannelData on unknown channels, "
-                "a burst of 1100 datagrams with no reader and 14 ConnectionAttempt indications with nobody accepting - every HandleInbound call must return "
+                "a burst of 1100 datagrams with no reader and 14 ConnectionAttempt indications with nobody accepting - every HandleInbound call must return; "
+                "the client's read loop over a stream transport is fed ChannelData and STUN frames of every extreme size (0 ... 0xFFFF, larger than its read buffer), each followed by a Binding liveness probe "
                 "(inbound-blocks otherwise); server side (H2): the full generated histories, in which well-formed STUN messages of every (method, class) pair without a handler, "
                 "unknown attributes, non-STUN bytes and oversize frames are mixed with ordinary traffic on packet and stream listeners - the server must stay up and silent on them; "
                 "attribute decoders are called on exact-capacity messages with every wrong size (attr-get-panics); "
